@@ -17,15 +17,15 @@ suffix_value = {"pre": -2, "p": 1, "alpha": -4, "beta": -3, "rc": -1}
 # to prevent version chunks from showing up in the package
 
 isvalid_version_re = regexp(
-    r"^(?:\d+)(?:\.\d+)*[a-zA-Z]?(?:_(p(?:re)?|beta|alpha|rc)\d*)*$"
+    r"^(?:\d+)(?:\.\d+)*[a-zA-Z]?(?:_(p(?:re)?|beta|alpha|rc)\d*)*\Z"
 )
 
 # see https://github.com/pkgcore/pkgcore/issues/453 for why this regex underscores
 # PMS Category names regex is directly replicated below.
-isvalid_cat_re = regexp(r"^(?:[A-Za-z0-9_][A-Za-z0-9+_.-]*)$")
+isvalid_cat_re = regexp(r"^(?:[A-Za-z0-9_][A-Za-z0-9+_.-]*)\Z")
 
 # empty string is fine, means a -- was encounter.
-_pkg_re = regexp(r"^[a-zA-Z0-9+_]+$")
+_pkg_re = regexp(r"^[a-zA-Z0-9+_]+\Z")
 
 
 def isvalid_pkg_name(chunks):
